@@ -477,8 +477,8 @@ static void explore(vr::Runner& R, const std::string& name, unsigned depth, std:
     if (args.replay_family.rfind(name + "_depth", 0) == 0) replay_rc = ex.replay(args.replay_idx);
     return;
   }
-  const std::string only = args.get("only");
-  if (!only.empty() && only != name) return;
+  const std::string only = args.get("only");  // comma-separated list of explorer names
+  if (!only.empty() && ("," + only + ",").find("," + name + ",") == std::string::npos) return;
   ex.run();
   states += ex.st.states;
   trans += ex.st.transitions;
